@@ -71,6 +71,10 @@ def gen_bars(rng, base, unit):
         out.append([b, d])
     if rng.random() < 0.25:
         out.append(list(rng.choice(out)))         # repeated bar
+    if rng.random() < 0.3:
+        # end points nudged off the lattice by a few millionths: operands then have breakpoints that nearly coincide
+        out = [[b + rng.choice((0.0, 1e-6, 3e-6, 5e-5)) * max(abs(b), unit), d + rng.choice((0.0, 1e-6, -3e-6, 5e-5)) * max(abs(d), unit)]
+               for b, d in out]
     return out
 
 
@@ -78,7 +82,8 @@ def gen_cps(rng, base, unit):
     depths = []
     for _ in range(rng.randint(1, 3)):
         k = rng.randint(3, 7)
-        xs = sorted({base + rng.randint(0, 16) * unit * 0.5 for _ in range(k)})
+        nudge = rng.choice((0.0, 0.0, 1e-6, 5e-5))
+        xs = sorted({(base + rng.randint(0, 16) * unit * 0.5) * (1.0 + (nudge if rng.random() < 0.5 else 0.0)) for _ in range(k)})
         if len(xs) < 3:
             xs = [base, base + unit, base + 2 * unit]
         ys = [0.0] + [rng.choice((-2.0, -1.0, -0.5, 0.5, 1.0, 1.5, 3.0, 0.0)) * unit for _ in xs[1:-1]] + [0.0]
@@ -119,7 +124,7 @@ def gen_obj(rng, base, unit, grid):
 
 
 def gen_case(rng, tier):
-    base = rng.choice((0.0, 0.0, 1.0, -3.0, 100.0))
+    base = rng.choice((0.0, 0.0, 1.0, -3.0, 100.0, 1000.0))
     unit = rng.choice((1.0, 1.0, 0.5, 0.1, 4.0))
     grid = {"start": base - unit, "stop": base + 25 * unit, "num_steps": rng.choice((79, 105, 131))}
     pool = [gen_obj(rng, base, unit, grid) for _ in range(rng.randint(2, 5))]
